@@ -1256,12 +1256,31 @@ impl<'s> Semantics<'s> {
 
         let condition = self.cc_condition()?;
 
+        // In 64-bit mode a 32-bit destination is zero-extended into the full register even
+        // when the condition is false.
+        let not_taken_index = match detail.operands[0].type_ {
+            x86_op_type::X86_OP_REG => {
+                let dst = self.get_register(detail.operands[0].reg())?;
+                if dst.bits() == 32 && !dst.is_full() {
+                    let block = control_flow_graph.new_block()?;
+                    dst.set(block, dst.get()?)?;
+                    Some(block.index())
+                } else {
+                    None
+                }
+            }
+            _ => None,
+        };
+
         control_flow_graph.conditional_edge(head_index, block_index, condition.clone())?;
         control_flow_graph.conditional_edge(
             head_index,
-            tail_index,
+            not_taken_index.unwrap_or(tail_index),
             Expr::cmpeq(condition, expr_const(0, 1))?,
         )?;
+        if let Some(not_taken_index) = not_taken_index {
+            control_flow_graph.unconditional_edge(not_taken_index, tail_index)?;
+        }
         control_flow_graph.unconditional_edge(block_index, tail_index)?;
 
         control_flow_graph.set_entry(head_index)?;
